@@ -145,6 +145,7 @@ AttrOf(x, n)  == IF x = oa THEN (IF n = "x" THEN i1 ELSE sa) ELSE (IF n = "x" TH
 Pred(p, x) ==
   CASE p = "truthy" -> (CASE x.k = "atom" -> (IF Numeric(x) THEN x.v # 0 ELSE x.cls # "NoneType")
                           [] x.k \in {"cont", "map"} -> Len(x.items) > 0
+                          [] x.k = "iter" /\ x.cls = "USizedIter" -> Len(x.items) > 0   \* has __len__
                           [] OTHER -> TRUE)
     [] p = "isstr"  -> x.k = "atom" /\ x.cls = "str"
     [] p = "sized1" -> x.k \in {"cont", "map"} /\ Len(x.items) = 1
